@@ -19,6 +19,10 @@ ASSUMPTIONS = ["file-level time fields: osu preview_time and sample events; Step
 RATES = [0.5, 0.75, 1, 1.1, 1.5, 2]
 
 
+def pinned(tier):
+    return [dict(cls="repo_test_suite", select=['tests/unit_tests/base', 'tests/unit_tests/osu', 'tests/unit_tests/sm'])] if tier == "thorough" else []
+
+
 def gen(rng, tier, k):
     from rv.gen import charts, sm_mem
 
@@ -45,6 +49,9 @@ def setup(ctx):
 
 
 def run(ctx, case):
+    if case.get("cls") == "repo_test_suite":
+        from rv.suite import run_repo_tests
+        return run_repo_tests(ctx, case.get("select"))
     from rv.gen import charts, sm_mem
     from rv.monitors.rate import compare_rated, state_of
     from rv.monitors.algos import game_of
@@ -72,6 +79,12 @@ def run(ctx, case):
         ab = x.rate(r).rate(r2)
         direct = x.rate(r * r2)
         with ctx.quiet():
+            shared = one is x or any(a is b for a, b in zip(maps_of(one), maps_of(x))) or any(
+                ta is tb or ta.df is tb.df for a, b in zip(maps_of(one), maps_of(x)) for ta, tb in zip(a.objs.values(), b.objs.values()))
+            if shared:
+                ctx.violate("C13", "c13.algebra", "new_object", "rate(1) returned the original (or shares its charts / lists) instead of a new chart", dict(rate=1), dict(game=game))
+            else:
+                ctx.held("c13.algebra", "new_object")
             bad = compare_rated(s0, state_of(one), 1, game, tol=0.0)
             if bad:
                 ctx.violate("C13", "c13.algebra", "identity", f"rate(1) is not the identity: {bad[1]}", dict(rate=1), dict(game=game))
@@ -87,6 +100,10 @@ def run(ctx, case):
             ctx.violate("C13", "c13.algebra", "raises", f"{type(e).__name__}: {e}", dict(a=r, b=r2), dict(game=game))
     # ---- write of the rated chart ----------------------------------------
     write_back(ctx, x, y, r, game)
+
+
+def maps_of(o):
+    return list(o.maps) if hasattr(o, "maps") else [o]
 
 
 def write_back(ctx, x, y, r, game):
